@@ -70,3 +70,15 @@ Theorem C03_instances_agree_on_the_exported_constraints : forall (L : leafdev Q)
       | _, _ => False
       end) (leaf_cons L) (leaf_cons (mleaf L)).
 Proof. exact instances_agree_leaf_cons. Qed.
+
+(* ---- Device.constraints and SDevice.constraints regenerated from device.py / sdevice.py on every run (Gen/Constraints.v,
+        translator/constraints_tx.py: the loops, what every lambda captures through default arguments and what it leaves free (bound LATE,
+        i.e. to the last iteration), order, types, signs, limits) ARE the exported constraint list the theorems above are about ---- *)
+From DK.Model Require Import Tree ConOps.
+From DK.Gen Require Import Constraints.
+From DK.Proofs Require Import GenConstraints.
+Theorem C03_source_device_constraints : forall (A : Type) (NA : Num A) n (cbs : list (cbound A)), Device_constraints n cbs = cb_cons n cbs.
+Proof. intros A NA. exact (@gen_device_constraints A NA). Qed.
+Theorem C03_source_sdevice_constraints : forall (q : sparams R) n bnd cbs,
+  SDevice_constraints (Device_constraints n cbs) q n bnd = cb_cons n cbs ++ sdev_cons q n bnd.
+Proof. intros q n bnd cbs. rewrite gen_sdevice_constraints, gen_device_constraints. reflexivity. Qed.
